@@ -1,6 +1,8 @@
 from __future__ import annotations
 
+import functools
 import math
+import threading
 from copy import copy
 from dataclasses import dataclass, field, replace
 from typing import Any, ClassVar, Self, cast
@@ -17,9 +19,49 @@ except ImportError:
         return code
 
 
+_RENDER = threading.local()
+
+
+def _share_renders(method):
+    """Share the renders made within one outermost rebuild() call.
+
+    Layout decisions render a child as a preview and then again for real, so
+    without sharing every nesting level doubles the work (2^depth renders).
+    rebuild() does not modify the tree, hence a render of the same node with
+    the same arguments can be reused until the outermost call returns.
+    """
+
+    @functools.wraps(method)
+    def rebuild(self, *args, **kwargs):
+        cache = getattr(_RENDER, "cache", None)
+        if cache is None:
+            _RENDER.cache = {}
+            try:
+                return method(self, *args, **kwargs)
+            finally:
+                _RENDER.cache = None
+        key = (id(self), args, tuple(sorted(kwargs.items())))
+        hit = cache.get(key)
+        if hit is not None:
+            return hit[1]
+        result = method(self, *args, **kwargs)
+        # The entry keeps the node alive, so its id stays unique meanwhile.
+        cache[key] = (self, result)
+        return result
+
+    rebuild.__shares_renders__ = True  # type: ignore[attr-defined]
+    return rebuild
+
+
 @dataclass(kw_only=True, slots=True, weakref_slot=True)
 class NixExpression:
     """Base class for all Nix objects."""
+
+    def __init_subclass__(cls, **kwargs: Any) -> None:
+        # (no zero-argument super() here: slots=True re-creates the class)
+        method = cls.__dict__.get("rebuild")
+        if method is not None and not getattr(method, "__shares_renders__", False):
+            cls.rebuild = _share_renders(method)  # type: ignore[method-assign]
 
     before: list[Any] = field(default_factory=list)
     after: list[Any] = field(default_factory=list)
